@@ -502,6 +502,48 @@ theorem parse_float_repr (eng : FloatEng) (nullable : Bool) (x : PyFloat)
   · simp [parseString, isNullish]
   · simp [parseFloat, isNullish, hne, floatCall, hrt, catchTypeValue]
 
+/-! ## The hypotheses about CPython's engines, decided
+
+`AlphaOK alpha` is a fact about CPython's `str.isalpha`; `hrt` / `hnn` of `parse_float_repr` are
+facts about CPython's `float` / `repr`.  Both are decided by executable functions of the model
+(`alphaTableOK`, `floatRtB`, `Model/Flags.lean`) on tables of what the running interpreter answers;
+the driver evaluates them on every run (`c07.alpha_ok` on all 63 characters, `c07.float_rt` on every
+generated float) and the correspondence compares the answers with `true`. -/
+
+/-- `alphaTableOK` decides `AlphaOK` of every `isalpha` that answers as the table says on the 63
+characters `[a-zA-Z0-9-]` -/
+theorem alpha_table_decides (tbl : List (Char × Bool)) (alpha : Char → Bool)
+    (hag : ∀ c ∈ nameCharList, tbl.lookup c = some (alpha c)) :
+    alphaTableOK tbl = true ↔ AlphaOK alpha :=
+  ⟨alphaOK_of_table tbl alpha hag, alphaTableOK_of_alphaOK tbl alpha hag⟩
+
+/-- a passing table is itself an admissible `isalpha` -/
+theorem alpha_table_ok (tbl : List (Char × Bool)) (h : alphaTableOK tbl = true) : AlphaOK (alphaOfTable tbl) :=
+  alphaOK_of_table tbl _ (alphaOfTable_agrees tbl h) h
+
+/-- `ctor_alpha_irrelevant` with its hypothesis decided: for every `isalpha` that answers on
+`[a-zA-Z0-9-]` as a table that passes `alphaTableOK`, the three constructors behave exactly as with
+the driver's ASCII letters - whatever that `isalpha` says elsewhere (e.g. `true` for 'é'). -/
+theorem ctor_alpha_irrelevant_decided (tbl : List (Char × Bool))
+    (hag : ∀ c ∈ nameCharList, tbl.lookup c = some (alpha c)) (h : alphaTableOK tbl = true) :
+    (∀ long short f d, mkOption alpha long short f d = mkOption isAsciiLetter long short f d) ∧
+    (∀ name f desc d, mkArgument alpha name f desc d = mkArgument isAsciiLetter name f desc d) ∧
+    (∀ long short as f, mkCommandOption alpha long short as f =
+        mkCommandOption isAsciiLetter long short as f) :=
+  ctor_alpha_irrelevant (alphaOK_of_table tbl alpha hag h)
+
+/-- `floatRtB` decides the two hypotheses of `parse_float_repr` -/
+theorem float_rt_decides (eng : FloatEng) (x : PyFloat) :
+    floatRtB eng x = true ↔ (eng.ofStr (eng.repr x) = some x ∧ eng.repr x ≠ nullText) :=
+  floatRtB_iff eng x
+
+/-- `parse_float_repr` with its hypotheses decided -/
+theorem parse_float_repr_decided (eng : FloatEng) (nullable : Bool) (x : PyFloat)
+    (h : floatRtB eng x = true) :
+    parseString eng nullable (.float x) = .ok (.str (eng.repr x)) ∧
+    parseFloat eng nullable (.str (eng.repr x)) = .ok (.float x) :=
+  parse_float_repr eng nullable x ((floatRtB_iff eng x).1 h).1 ((floatRtB_iff eng x).1 h).2
+
 /-! ## Non-vacuity and documented corner cases (concrete evaluations of the model) -/
 
 /-- `--verbose -v`, MULTI_VALUED|INTEGER: constructed, REQUIRED_VALUE and PREFER_SHORT_NAME added,
@@ -552,5 +594,81 @@ example : intRepr (-120) = "-120".toList := by
   show '-' :: natRepr 120 = _
   rw [natRepr_ge (by omega), natRepr_ge (by omega), natRepr_lt (by omega)]
   rfl
+
+/-! ### every theorem with hypotheses, applied to a concrete instance (all hypotheses discharged) -/
+
+section Applied
+
+/-- an `isalpha` given as a table: the ASCII letters on the 63 name characters, and - like
+CPython's - `true` for 'é'; it passes the decider and is NOT the driver's `isAsciiLetter` -/
+def exTable : List (Char × Bool) := ('é', true) :: nameCharList.map (fun c => (c, isAsciiLetter c))
+
+example : alphaTableOK exTable = true ∧ alphaOfTable exTable 'é' = true ∧ isAsciiLetter 'é' = false ∧
+    nameCharList.length = 63 := by decide
+
+/-- a table that answers wrongly for one character (or misses one) is rejected -/
+example : alphaTableOK (('1', true) :: exTable) = false ∧ alphaTableOK (exTable.filter (·.1 != 'q')) = false := by
+  decide
+
+example : mkOption (alphaOfTable exTable) (.str "été".toList) .none 0 .none =
+    mkOption isAsciiLetter (.str "été".toList) .none 0 .none :=
+  (ctor_alpha_irrelevant_decided exTable (alphaOfTable_agrees exTable (by decide)) (by decide)).1 _ _ _ _
+
+example : AlphaOK (alphaOfTable exTable) := alpha_table_ok exTable (by decide)
+
+example : OptNoContradiction 8 true .scalar ∧ LongNameOK (.str "ab".toList) ∧ ShortNameOK (.str "c".toList) :=
+  (option_ok_iff (alpha_table_ok exTable (by decide)) (.str "ab".toList) (.str "c".toList) 8 .scalar).1 ⟨_, rfl⟩
+
+example : ArgNoContradiction 4 .list ∧ ArgNameOK (.str "a-1".toList) ∧ DescOK (.str "d".toList) :=
+  (argument_ok_iff alphaOK_ascii (.str "a-1".toList) 4 (.str "d".toList) .list).1 ⟨_, rfl⟩
+
+example := option_raises_only_valueError (alpha := isAsciiLetter) (.str "ab".toList) .none (4 ||| 8) .none _ rfl
+example := argument_raises_only_valueError (alpha := isAsciiLetter) (.str "ab".toList) 3 .none .none _ rfl
+example := command_option_raises_only_valueError (alpha := isAsciiLetter) (.str "ab".toList) .none ["--cd".toList] 0 _ rfl
+
+example : CmdNoContradiction 0 true ∧ LongNameOK (.str "ab".toList) :=
+  ⟨((command_option_ok_iff alphaOK_ascii (.str "ab".toList) (.str "-c".toList) ["-cd".toList, "e".toList] 0
+      ⟨"ab".toList, some "c".toList, 2, ["cd".toList], ["e".toList]⟩).1 rfl).1,
+   ((command_option_ok_iff alphaOK_ascii (.str "ab".toList) (.str "-c".toList) ["-cd".toList, "e".toList] 0
+      ⟨"ab".toList, some "c".toList, 2, ["cd".toList], ["e".toList]⟩).1 rfl).2.1⟩
+
+def exOpt : OptionObj := ⟨"verbose".toList, some "v".toList, 2 ||| 8 ||| 32 ||| 512, .list⟩
+private theorem exOpt_built : mkOption isAsciiLetter (.str "--verbose".toList) (.str "-v".toList) (32 ||| 512) .none = .ok exOpt := rfl
+def exArg : ArgumentObj := ⟨"n".toList, 2 ||| 128 ||| 256, .scalar⟩
+private theorem exArg_built : mkArgument isAsciiLetter (.str "n".toList) (128 ||| 256) .none .scalar = .ok exArg := rfl
+
+example : countFlags exOpt.flags optTypeFlags = 1 := (option_normal_form alphaOK_ascii exOpt_built).1
+example : exOpt.flags = optAddDefaultFlags exOpt.shortName (32 ||| 512) := (option_flags_exact alphaOK_ascii exOpt_built).2.2.1
+example : countFlags exArg.flags argReqFlags = 1 := (argument_normal_form alphaOK_ascii exArg_built).2.1
+example : keeps exArg.flags (128 ||| 256) := (argument_flags_exact alphaOK_ascii exArg_built).2.2.1
+
+example : wfLong "a-b".toList = true → stripDoubleDash "a-b".toList = "a-b".toList :=
+  (names_wf_iff alphaOK_ascii "a-b".toList).2.2.1
+example : ∃ o, mkCommandOption isAsciiLetter (.str ['a', 'b']) .none ["-cd".toList] 0 = .ok o :=
+  (alias_wf_iff alphaOK_ascii "-cd".toList).2 (by decide)
+
+/-- a float engine for the examples: tokens are the texts themselves -/
+def exEng : FloatEng :=
+  ⟨fun s => some ⟨s⟩, fun n => .ok ⟨intRepr n⟩, fun _ => .error (.other "OverflowError"), fun x => x.tok⟩
+
+example : ConvOutcomeOK .int true (parseAs exEng .int true (.str " 12 ".toList)) :=
+  conv_typed exEng .int true (.str " 12 ".toList) rfl
+example : parseAs exEng .float true (.str "null".toList) = .ok .none :=
+  (conv_none_iff exEng .float true (.str "null".toList)).2 ⟨rfl, rfl⟩
+
+example (v : PyVal) : optParse exEng exOpt.flags v = parseAs exEng .int false v :=
+  parse_typed_by_declared_type alphaOK_ascii exOpt_built exEng .int (by decide) v
+example (v : PyVal) : argParse exEng exArg.flags v = parseAs exEng .float true v :=
+  argument_parse_typed_by_declared_type alphaOK_ascii exArg_built exEng .float (by decide) v
+
+example : parseInt exEng false (.str ([' ', '\t'] ++ (intRepr (-7) ++ ['\n']))) = .ok (.int (-7)) :=
+  (parse_int_text exEng false [' ', '\t'] ['\n'] (by decide) (by decide)).1 (-7)
+
+example : floatRtB exEng ⟨"1.5".toList⟩ = true ∧ floatRtB exEng ⟨"null".toList⟩ = false := by decide
+example : parseFloat exEng false (.str "1.5".toList) = .ok (.float ⟨"1.5".toList⟩) :=
+  (parse_float_repr_decided exEng false ⟨"1.5".toList⟩ (by decide)).2
+example := parse_float_repr exEng true ⟨"-0.0".toList⟩ rfl (by decide)
+
+end Applied
 
 end Clikit.Props.C07
